@@ -178,7 +178,7 @@ theorem lockVirtual_inv {s s' : St} {c amt epochs d : Nat} {o : Out} (hi : Inv s
     Option.pure_def, Option.some.injEq, Prod.mk.injEq] at h
   obtain ⟨_, _, _, _, _, _, _, _, _, _, _, hlt, rfl, _⟩ := h
   exact inv_of_frame_mint hi hd (Frame.refl s d) (hi.track d hd) (fun m hm => hi.dom d m hd hm)
-    (startOfMonth (s.epoch + epochs)) amt (Nat.le_of_lt hlt) (by simp) rfl rfl rfl
+    (startOfMonth (s.epoch + epochs)) amt (Nat.le_of_lt hlt) (by simp) rfl (by simp) rfl
 
 theorem claimUnlocked_inv {s s' : St} {c : Nat} {o : Out} (hi : Inv s)
     (h : claimUnlocked s c = some (s', o)) : Inv s' := by
@@ -258,6 +258,25 @@ theorem cfg_frame {s s' : St} {o : CfgOp} (h : cfg s o = some s') :
   case whitelist => obtain ⟨_, _, rfl⟩ := h; exact ⟨rfl, rfl, rfl, rfl⟩
   case unwhitelist => obtain ⟨_, _, rfl⟩ := h; exact ⟨rfl, rfl, rfl, rfl⟩
 
+/-- depleting in two steps is depleting once -/
+theorem deplete_deplete (x : Entry) {a b : Nat} (h1 : x.last ≤ a) (h2 : a ≤ b) :
+    (x.deplete a).deplete b = x.deplete b := by
+  obtain ⟨E, l, T⟩ := x
+  simp only at h1
+  by_cases hla : l = a
+  · subst hla; simp [Entry.deplete]
+  · by_cases hab : a = b
+    · subst hab; simp [Entry.deplete, hla]
+    · have hlb : l ≠ b := by omega
+      by_cases hT : 0 < T
+      · have c1 : ¬ a ≤ l := by omega
+        have c2 : ¬ b ≤ a := by omega
+        have c3 : ¬ b ≤ l := by omega
+        simp only [Entry.deplete, hla, hab, hlb, hT, if_true, if_false, Entry.subtract, c1, c2, c3,
+          Entry.mk.injEq, and_true]
+        rw [cast_mul_sub T a l h1, cast_mul_sub T b a h2, cast_mul_sub T b l (by omega)]
+        ring
+      · simp [Entry.deplete, hla, hab, hlb, hT]
 /-- `epoch advance`: every entry decays linearly, exactly as the sums do -/
 theorem advance_inv {s : St} {e : Nat} (hi : Inv s) (hle : s.epoch ≤ e) : Inv { s with epoch := e } := by
   refine ⟨?_, ?_, ?_, ?_⟩
@@ -271,35 +290,19 @@ theorem advance_inv {s : St} {e : Nat} (hi : Inv s) (hle : s.epoch ≤ e) : Inv 
       simp only
       have hv : s.view a = Entry.zero s.epoch := by simp [St.view, hea]
       rw [hv] at ht
-      obtain ⟨h1, h2, _⟩ := ht
-      have := (Tracks.deplete ⟨h1, h2, rfl⟩ hle)
-      simpa [Entry.deplete, Entry.zero, Entry.subtract] using this
+      have := ht.deplete hle
+      have hz : (Entry.zero s.epoch).deplete e = Entry.zero e := by
+        unfold Entry.deplete Entry.zero
+        by_cases h : s.epoch = e <;> simp [h]
+      rw [hz] at this
+      exact this
     | some x =>
       simp only
       have hv : s.view a = x.deplete s.epoch := by simp [St.view, hea]
       rw [hv] at ht
       have hl := hi.last a x hea
       have h2 := ht.deplete hle
-      -- depleting in two steps is depleting once
-      have : (x.deplete s.epoch).deplete e = x.deplete e := by
-        unfold Entry.deplete
-        by_cases h1 : x.last = s.epoch
-        · simp [h1]
-        · by_cases h3 : s.epoch = e
-          · subst h3; simp [h1]
-          · have h4 : x.last ≠ e := by omega
-            simp only [h1, if_false, h3, h4]
-            by_cases hT : 0 < x.T
-            · simp only [hT, if_true, Entry.subtract]
-              have c1 : ¬ s.epoch ≤ x.last := by omega
-              have c2 : ¬ e ≤ s.epoch := by omega
-              have c3 : ¬ e ≤ x.last := by omega
-              simp only [c1, c2, c3, if_false]
-              congr 1
-              rw [cast_mul_sub x.T s.epoch x.last hl, cast_mul_sub x.T e s.epoch hle,
-                cast_mul_sub x.T e x.last (by omega)]
-              ring
-            · simp [hT]
+      have : (x.deplete s.epoch).deplete e = x.deplete e := deplete_deplete x hl hle
       rw [this] at h2
       exact h2
   · intro a x hx
